@@ -63,9 +63,9 @@ func runC06Dims(c *Ctx) {
 		return
 	}
 	arg := calls[0].Common().Args[1]
-	phi, ok := arg.(*ssa.Phi)
-	if !ok {
-		c.Undecided(calls[0].Pos(), fn, "coordinates type decision", "the ctype argument is not a merge of constants")
+	origins := constOrigins(arg, 0)
+	if origins == nil {
+		c.Undecided(calls[0].Pos(), fn, "coordinates type decision", "the ctype argument is not a merge of constants (directly or as the result of a helper)")
 		return
 	}
 	// classify a guard set: which comparison on the position length sets a flag
@@ -107,17 +107,12 @@ func runC06Dims(c *Ctx) {
 		return "?"
 	}
 	n := 0
-	for i, e := range phi.Edges {
-		k, isC := constInt(e)
-		if !isC || k != xyz {
+	for _, o := range origins {
+		if o.k != xyz {
 			continue
 		}
 		n++
-		pred := phi.Block().Preds[i]
-		gs := guardsAtBlock(pred)
-		if ifi, ok := pred.Instrs[len(pred.Instrs)-1].(*ssa.If); ok && pred.Succs[0] != pred.Succs[1] {
-			gs = append(gs, Guard{ifi.Cond, pred.Succs[0] == phi.Block()})
-		}
+		gs := o.gs
 		no2D, has3D := false, false
 		for _, g := range gs {
 			switch flagKind(g.Cond) {
@@ -197,4 +192,61 @@ func runC17MultiOrient(c *Ctx) {
 		}
 	}
 	reportK4(c, f, "members re-oriented", undec, problem, fmt.Sprintf("every member is forced (or provably already oriented), in all %d models", models))
+}
+
+// constOrigin: an integer constant that can flow into a value, with the branch
+// conditions under which it does.
+type constOrigin struct {
+	k  int64
+	gs []Guard
+}
+
+// constOrigins resolves v to the constants merged into it: through phis (with
+// the guards of each incoming edge) and through the returns of a repository
+// helper that computes it. nil when some origin is not a constant.
+func constOrigins(v ssa.Value, depth int) []constOrigin {
+	if depth > 4 {
+		return nil
+	}
+	switch x := v.(type) {
+	case *ssa.Const:
+		if k, ok := constInt(x); ok {
+			return []constOrigin{{k: k}}
+		}
+	case *ssa.Phi:
+		var out []constOrigin
+		for i, e := range x.Edges {
+			pred := x.Block().Preds[i]
+			gs := guardsAtBlock(pred)
+			if ifi, ok := pred.Instrs[len(pred.Instrs)-1].(*ssa.If); ok && pred.Succs[0] != pred.Succs[1] {
+				gs = append(gs, Guard{ifi.Cond, pred.Succs[0] == x.Block()})
+			}
+			sub := constOrigins(e, depth+1)
+			if sub == nil {
+				return nil
+			}
+			for _, o := range sub {
+				out = append(out, constOrigin{o.k, append(append([]Guard{}, gs...), o.gs...)})
+			}
+		}
+		return out
+	case *ssa.Call:
+		cal := staticCallee(x)
+		if cal == nil || cal.Blocks == nil || cal.Signature.Results().Len() != 1 {
+			return nil
+		}
+		var out []constOrigin
+		for _, r := range returnsOf(cal) {
+			sub := constOrigins(r.Results[0], depth+1)
+			if sub == nil {
+				return nil
+			}
+			gs := guardsAt(r)
+			for _, o := range sub {
+				out = append(out, constOrigin{o.k, append(append([]Guard{}, gs...), o.gs...)})
+			}
+		}
+		return out
+	}
+	return nil
 }
